@@ -172,8 +172,21 @@ pub fn run(args: &Args, prefix: &str) -> i32 {
                 let picks: Vec<usize> = if th { (0..6).collect() } else { vec![0, 3, 4] };
                 for &i in &picks {
                     for max_data in if th { vec![0u64, 4, 64] } else { vec![4] } {
-                        // quick: all interleavings over a faultless network, and one deviation for
-                        // the uni scripts (which close quickly); thorough: one deviation everywhere
+                        // quick: the searches that close within seconds — the uni script with one
+                        // deviation for three parameter permutations, the two-stream and bidi
+                        // scripts over a faultless network for one permutation each;
+                        // thorough: every script x permutation x connection window, one deviation
+                        if !th {
+                            let keep = match name {
+                                "fc-uni" => true,
+                                "fc-two" => i == 0,
+                                "fc-bidi" => i == 4,
+                                _ => false,
+                            };
+                            if !keep {
+                                continue;
+                            }
+                        }
                         let d = if th || name.starts_with("fc-uni") { 1 } else { 0 };
                         configs.push((format!("{name}-perm{i}-md{max_data}-d{d}"), mk(sc.clone(), i, max_data), d));
                     }
@@ -244,7 +257,7 @@ pub fn run(args: &Args, prefix: &str) -> i32 {
         }
         return 0;
     }
-    let per_cfg_cap = Duration::from_secs(if args.thorough { 600 } else { 8 });
+    let per_cfg_cap = Duration::from_secs(if args.thorough { 600 } else { 15 });
     for (name, cfg, budget) in configs {
         let ecfg = ExploreCfg {
             max_depth: 60,
